@@ -463,6 +463,48 @@ def lenient_lists() -> Tuple[List[Tuple[str, str]], List[str]]:
     return keys, (fakes or list(DEFAULT_FAKES))
 
 
+EXT = "req_compile/metadata/extractor.py"
+
+
+def read_extractor() -> Dict[str, object]:
+    mod = T.parse(EXT)
+    out: Dict[str, object] = {}
+    # Extractor.contains_path: how a path is made comparable with the fake root
+    cp = T.func(T.klass(mod, "Extractor"), "contains_path")
+    rets = [n for n in ast.walk(cp) if isinstance(n, ast.Return)]
+    if len(rets) != 1:
+        raise TranslateError("contains_path: expected a single return")
+    txt = ast.unparse(rets[0].value)
+    if txt == "os.path.abspath(path).startswith(self.fake_root)":
+        out["contains_path_uses_abspath"] = True
+    elif txt in ("os.path.normpath(path).startswith(self.fake_root)", "path.startswith(self.fake_root)"):
+        out["contains_path_uses_abspath"] = False
+    else:
+        raise TranslateError("contains_path has an unrecognised shape: " + txt[:120])
+    # NonExtractor.extract: the private copy for the egg-info fall-back is a COPY
+    ex = T.func(T.klass(mod, "NonExtractor"), "extract")
+    calls = [n for n in ast.walk(ex) if isinstance(n, ast.Call) and call_name(n) == "shutil.copytree"]
+    others = [call_name(n) for n in ast.walk(ex) if isinstance(n, ast.Call)
+              and call_name(n) not in ("shutil.copytree", "os.rmdir", "shutil.ignore_patterns")]
+    if len(calls) != 1 or others:
+        raise TranslateError("NonExtractor.extract: expected os.rmdir + one shutil.copytree, found " + ",".join(others)[:100])
+    c = calls[0]
+    if len(c.args) != 2 or ast.unparse(c.args[0]) != "self.path" or ast.unparse(c.args[1]) != "target_dir":
+        raise TranslateError("NonExtractor.extract: copytree arguments not understood")
+    is_copy = True
+    for kw in c.keywords:
+        if kw.arg == "ignore":
+            continue
+        if kw.arg == "copy_function":
+            is_copy = ast.unparse(kw.value) in ("shutil.copy2", "shutil.copy")
+        elif kw.arg == "symlinks":
+            is_copy = is_copy and ast.unparse(kw.value) == "False"
+        else:
+            raise TranslateError("NonExtractor.extract: copytree keyword not understood: " + str(kw.arg))
+    out["scratch_copy_is_copy"] = is_copy
+    return out
+
+
 def b(x: object) -> str:
     return "true" if x else "false"
 
@@ -493,6 +535,7 @@ def gen_c13_consts() -> str:
     s = read_source()
     p = read_pyproject()
     q = read_patch_py()
+    x = read_extractor()
     all_calls_accounted()
     body = "(* GENERATED by harness/tr_c13.py from /repo on every run -- do not edit *)\n"
     body += "From Coq Require Import List String Bool.\nImport ListNotations.\nOpen Scope string_scope.\n"
@@ -513,6 +556,8 @@ def gen_c13_consts() -> str:
         body += f"Definition {k} : bool := {b(s[k])}.\n"
     body += f"Definition pyproject_chdir_back_in_finally : bool := {b(p['pyproject_chdir_back_in_finally'])}.\n"
     body += f"Definition cwd_saved_inside_lock : bool := {b(p['cwd_saved_inside_lock'])}.\n"
+    for k in ("contains_path_uses_abspath", "scratch_copy_is_copy"):
+        body += f"Definition {k} : bool := {b(x[k])}.\n"
     for k in ("patch_loop_covers_all_args", "patch_yield_in_try", "patch_restores_reversed",
               "end_patch_missing_deletes_if_present", "begin_patch_absent_is_missing", "missing_is_private_sentinel",
               "begin_patch_unloaded_no_token"):
